@@ -1291,7 +1291,7 @@ struct Extractor
                 f.boolean("virtual", true);
                 std::vector<std::string> ov;
                 for (auto* o : md->overridden_methods())
-                    ov.push_back(patName(o));
+                    ov.push_back(o->getQualifiedNameAsString());
                 f.raw("overrides", jstrlist(ov));
             }
             if (isa<CXXConstructorDecl>(md))
